@@ -192,7 +192,7 @@ Scope == cur.params \o cur.locals            \* seq of [name, ref, ty, bind]
 \*  the local table as well, an observed defect outside the listed properties' core, see DESIGN 12.4)
 \* likewise a local may carry the name of a declared type; that type can then not be named in later local declarations
 \* and the name of a predefined procedure (which can then not be called here either)
-ShadowBuiltins == {"exit", "time"}
+ShadowBuiltins == {"exit", "time", "int"}
 ShadowNames == IF Shadowing THEN ({plan[d].name : d \in {e \in DOMAIN plan : ~plan[e].dup}} \ {cur.proc}) \cup ShadowBuiltins ELSE {}
 ScopeNames == {Scope[j].name : j \in DOMAIN Scope}
 Usable == {j \in DOMAIN Scope : Scope[j].ty # UNK}
